@@ -50,6 +50,8 @@ pub enum T {
     DecrCurSame,
     AppendCurSame,
     PrependCurSame,
+    /// unconditional set of a decimal number (a counter being reset by another client)
+    SetNum,
     /// stores carrying a TTL of 2 s (time stands still during the concurrent phase)
     SetTtl,
     AddTtl,
@@ -92,6 +94,7 @@ pub fn instantiate(t: T, client: usize, key: &[u8], other: &[u8]) -> Cmd {
         T::DecrCurSame => Cmd::Delta { incr: false, key: k, delta: 1, initial: 100, exp: 0, cas: CasArg::Current, quiet: false },
         T::AppendCurSame => Cmd::Concat { append: true, key: k, value: b"+".to_vec(), cas: CasArg::Current, quiet: false },
         T::PrependCurSame => Cmd::Concat { append: false, key: k, value: b"-".to_vec(), cas: CasArg::Current, quiet: false },
+        T::SetNum => Cmd::Store { kind: StoreKind::Set, key: k, value: format!("{}", 100 + client).into_bytes(), flags: 130 + client as u32, ttl: 0, cas: CasArg::Zero, quiet: false },
         T::SetTtl => Cmd::Store { kind: StoreKind::Set, key: k, value: tag("T"), flags: 110 + client as u32, ttl: 2, cas: CasArg::Zero, quiet: false },
         T::AddTtl => Cmd::Store { kind: StoreKind::Add, key: k, value: tag("U"), flags: 120 + client as u32, ttl: 2, cas: CasArg::Zero, quiet: false },
         T::AppendStale => Cmd::Concat { append: true, key: k, value: tag("+"), cas: CasArg::Stale1, quiet: false },
@@ -208,6 +211,22 @@ pub fn c03_families(tier: Tier) -> Vec<Family> {
         }
     }
     fams.push(Family { name: "2x1/random-policy".into(), programs: progs, opts: opts(if tier == Tier::Quick { 3 } else { 64 }, tier) });
+    // one command against two in a row (a client that deletes and stores again, stores and reads
+    // back), on the bare store and behind the policy: what the first of the two leaves behind - in
+    // the store or in the policy's bookkeeping - meets the other client's command half-way
+    for (name, policy) in [("1+2", Policy::None), ("1+2/random-policy", Policy::Random(1 << 40))] {
+        let mut progs = vec![];
+        for init in [Init::Absent, Init::Present] {
+            for a in [T::Set, T::SetCur, T::Del] {
+                for b1 in [T::Get, T::Set, T::Del] {
+                    for b2 in [T::Get, T::Set, T::Del] {
+                        progs.push(mk(init, vec![vec![a], vec![b1, b2]], K, K, keys.clone(), policy));
+                    }
+                }
+            }
+        }
+        fams.push(Family { name: name.into(), programs: progs, opts: opts(if tier == Tier::Quick { 2 } else { 64 }, tier) });
+    }
     fams
 }
 
@@ -254,7 +273,7 @@ pub fn c04_families(tier: Tier) -> Vec<Family> {
     // read-modify-write commands guarded by the current CAS: of two that read the same version only
     // one may win, and a plain writer in between must make the guarded one fail
     let guarded = [T::IncrCur, T::DecrCur, T::AppendCur, T::PrependCur];
-    let against = [T::IncrCur, T::DecrCur, T::AppendCur, T::PrependCur, T::Incr, T::Append, T::Set, T::SetCur, T::Del, T::Get];
+    let against = [T::IncrCur, T::DecrCur, T::AppendCur, T::PrependCur, T::Incr, T::Append, T::Set, T::SetCur, T::Del, T::Get, T::SetNum];
     let mut progs = vec![];
     for (gi, g) in guarded.iter().enumerate() {
         for (oi, o) in against.iter().enumerate() {
